@@ -255,6 +255,8 @@ func Prefixes(kind string) map[string][]fsx.Op {
 		"files": {md("/w/a"), md("/w/b"), wf("/w/a/x", "AX"), wf("/w/b/x", "BX")},
 		"deep":  {md("/w/a"), md("/w/a/x"), wf("/w/a/x/f", "F"), md("/w/b")},
 		"links": {md("/w/a"), md("/w/b"), wf("/w/a/x", "AX"), {K: "Link", P: "/w/a/x", P2: "/w/b/x"}},
+		// a file with two names next to another file: a rename that replaces the other file while it is being removed
+		"links3": {md("/w/a"), md("/w/b"), wf("/w/a/x", "AX"), {K: "Link", P: "/w/a/x", P2: "/w/b/x"}, wf("/w/a/y", "AY")},
 	}
 	if kind == "MemFS" {
 		m["sym"] = []fsx.Op{md("/w/a"), md("/w/b"), wf("/w/a/x", "AX"), {K: "Symlink", P: "/w/a", P2: "/w/b/x"}}
@@ -282,6 +284,10 @@ func Calls(kind string, reduced bool) [][]fsx.Op {
 		// either: they are issued as the primitive calls they consist of
 		r = append(r, []fsx.Op{{K: "Open", P: p, Flag: os.O_WRONLY | os.O_CREATE | os.O_TRUNC, Perm: 0o644, H: 0}, {K: "FWrite", H: 0, Data: "W"}, {K: "FClose", H: 0}})
 		one(fsx.Op{K: "Stat", P: p})
+		if p == "/w/a" || p == "/w/b/x" {
+			// the working directory belongs to the worker's own view; resolving it reads the shared tree
+			r = append(r, []fsx.Op{{K: "Chdir", P: p}, {K: "Getwd"}})
+		}
 		if reduced && (p == "/w" || p == "/w/a") {
 			// an open directory being read locks itself, then each entry
 			r = append(r, []fsx.Op{{K: "Open", P: p, Flag: os.O_RDONLY, H: 1}, {K: "FReadDir", H: 1, N: -1}, {K: "FClose", H: 1}})
